@@ -671,6 +671,12 @@ var oracleC12 = oracle{
 				// soundness of the loaded chain
 				var bad string
 				var work = w.Tree.Get(hdr.RH(repo.LastHash()))
+				if work == nil {
+					// a header that was accepted and later removed by marking is still "a previously
+					// accepted header": a stop before the next Save has written anything leaves the chain
+					// of the last completed Save on storage
+					work = w.Tree.Removed[hdr.RH(repo.LastHash())]
+				}
 				_, p = hdr.Safe(func() error {
 					tip := repo.Height()
 					if work == nil {
@@ -762,6 +768,17 @@ func shortRestartDepth(w *hdr.World) int {
 			lowest = p.Height
 		}
 	}
+	// marking a header takes the chain back to its parent, like a reorganisation that forks there
+	for _, n := range w.Tree.Removed {
+		if n.Height > top {
+			top = n.Height
+		}
+		if n.Parent != nil {
+			if _, gone := w.Tree.Removed[n.Parent.Hash]; !gone && n.Parent.Height < lowest {
+				lowest = n.Parent.Height
+			}
+		}
+	}
 	d := top - lowest + 1
 	if d < 2 {
 		d = 2
@@ -777,7 +794,7 @@ func continueAfterRecovery(cw *hdr.World, repo *headers.Repository, tip *ref.Nod
 		label := tip.Label
 		var added []*hdr.UHeader
 		for i := 0; i < 3; i++ {
-			label += "/a"
+			label += "/c" // a unit-work slot no history uses: never submitted, never marked
 			u := hdr.Get(label)
 			if cw.Cfg.Splits != "" {
 				return nil
